@@ -62,7 +62,7 @@ def parse(s, nodes):
 
     def num():
         t = peek()
-        if t is None or not t.isdigit():
+        if t is None or not re.fullmatch(r"[0-9]+", t):          # ASCII digits only (str.isdigit accepts other scripts)
             raise CExprError("number expected")
         pos[0] += 1
         return int(t)
